@@ -1,4 +1,4 @@
 INIT Init
 NEXT Next
-INVARIANTS ReportExact ReportIsSpec WireExact ReadBack
+INVARIANTS ReportExact ReportIsSpec WireExact ReadBack HeldReportStable
 CHECK_DEADLOCK FALSE
